@@ -463,7 +463,7 @@ func replayEncv(line []byte, a *Acc) {
 		mxj.SetGlobalKeyMapPrefix("#")
 	}()
 	mxj.XMLEscapeChars(true)
-	if l.Ap != "" {
+	if l.Kp != "" {
 		mxj.SetAttrPrefix(l.Ap)
 		mxj.SetGlobalKeyMapPrefix(l.Kp)
 	}
@@ -983,6 +983,33 @@ func replayEsc(line []byte, a *Acc) {
 			if e != nil || e2 != nil || tagged.CanonGo(m2) != before {
 				one("esc:dec:not-reproduced:"+pos, fmt.Sprintf("encode (indent=%v) gave %q (%v); decoding it gives %s (%v), first decode %s", indent, b, e, tagged.CanonGo(m2), e2, before))
 			}
+		}
+	}
+	// the same clause for the sequence decoder: plain and PREFIXED attribute, element text
+	seqDocs := map[string]*xNode{
+		"elem":  docs["elem"],
+		"attr":  docs["attr"],
+		"pattr": {K: "e", Nm: xName{L: []string{"a"}}, At: []xAttr{{Nm: xName{P: "p", L: []string{"n"}}, V: []string{l.S}}, {Nm: xName{P: "xml", L: []string{"lang"}}, V: []string{l.S}}}},
+	}
+	for pos, dn := range seqDocs {
+		cases++
+		var sb strings.Builder
+		dn.render(&sb, 0)
+		doc := []byte(sb.String())
+		ms, err := mxj.NewMapXmlSeq(doc)
+		if err != nil {
+			one("esc:dec:seq-decode-error:"+pos, fmt.Sprintf("NewMapXmlSeq(%q): %v", doc, err))
+			continue
+		}
+		before := tagged.CanonGo(map[string]interface{}(ms))
+		b, e := ms.Xml()
+		if e != nil || wellFormed(b) != nil {
+			one("esc:dec:seq-ill-formed:"+pos, fmt.Sprintf("NewMapXmlSeq(%q) then MapSeq.Xml = %q (err %v): not well formed", doc, b, e))
+			continue
+		}
+		ms2, e2 := mxj.NewMapXmlSeq(b)
+		if e2 != nil || tagged.CanonGo(map[string]interface{}(ms2)) != before {
+			one("esc:dec:seq-not-reproduced:"+pos, fmt.Sprintf("MapSeq.Xml = %q decodes to %s (%v), first decode %s", b, tagged.CanonGo(map[string]interface{}(ms2)), e2, before))
 		}
 	}
 	nt := 0
